@@ -686,6 +686,9 @@ def run(ctx):
         r2j("general", e, algs, "multi:" + "+".join(algs), crv=crv, zip_=i % 2 == 1, aad=b"b" if i % 3 == 1 else None,
             spell=sp[i % len(sp)])
 
+    # ------------------------------------------------------------- falsy-but-valid optional inputs, strict reference
+    J.falsy_checks(ctx, K, rng, cases, meta, bump, ref_decrypt=decrypt, coq_cases=False)    # C04 replays these in the model
+
     # ------------------------------------------------------------- operation sequences on message objects
     # decrypt a reference-built token with a foreign header spelling and re-encrypt the returned object (same and new
     # keys); encrypt one object several times with header edits in between: every result goes through the strict reference
